@@ -18,8 +18,10 @@ Ghost state: 'collected' -- the rules on which collect_transitive_dependencies w
 'visits' -- the visit records appended by _visit_dependency (an [effect] of its contract: the record of being called), used by the
 contracts of the two collect_transitive_dependencies methods.
 
-Assumed: the strategy loop `resolve_symbol` (HashRule.all_rules / try_resolve of the four rule classes): it answers None exactly when
-nothing describes the reference (resolvable), otherwise a rule for (parent symbol, symbol, reference).  list_dotted_names (AST visitor)
+Assumed: the strategy loop `resolve_symbol` (iteration over HashRule.all_rules, blacklist filter): it answers None exactly when
+nothing describes the reference (resolvable), otherwise a rule for (parent symbol, symbol, reference).  The three try_resolve strategies
+it consults are under contract at the end of this module (a memento function behind any functools.wraps chain; a callable with a global
+scope; a value that can be serialised).  list_dotted_names (AST visitor)
 is a function of the source function (dotted_names).  FunctionReference.from_qualified_name(s).memento_fn is a function of s (fn_named).
 """
 import z3
@@ -41,7 +43,8 @@ def load(R):
     ufs = {k: v[0] for k, v in R.ufs.items()}
     R.set_identity_attr = "key"
     R.assume("traversal: the strategy loop resolve_symbol (HashRule.all_rules / try_resolve of the four rule classes, blacklist filter) answers None exactly when nothing "
-             "describes the reference (resolvable), otherwise a rule for (parent symbol, symbol, reference, first_level) (is_rule_for) -- assumed, not examined")
+             "describes the reference (resolvable), otherwise a rule for (parent symbol, symbol, reference, first_level) (is_rule_for) -- the loop and the blacklist filter are assumed; "
+             "the three try_resolve strategies it consults are under contract separately (what each recognises and which rule it builds)")
     R.assume("traversal: list_dotted_names(fn) (AST visitor) is a function of the source function (dotted_names); FunctionReference.from_qualified_name(s).memento_fn is a "
              "function of s (fn_named); the constructors of MementoFunctionHashRule / UndefinedSymbolHashRule keep their arguments and build the key proved under C03")
     R.assume("traversal: iterating a set of names visits each element once in the set's own order (the contracts state which names are visited, in iteration order)")
@@ -288,3 +291,66 @@ def load(R):
                           "forall(int, lambda j: implies(0 <= j and j < loop_i, same(ghost('visits')[NV0() + j], SREC(dotted_names(SFN())[j]))))"]},
                labels={"prebox_entities": True},
                modifies=["result", "ghost:collected", "ghost:visits"])
+
+    # ---------------------------------------------------------------- the three strategies behind resolve_symbol (try_resolve)
+    # From the property (C14: reference forms "bare name, module.attr, alias, decorator-wrapped"): a reference denotes a memento function when the object or
+    # anything along its chain of functools.wraps layers IS one -- the rule is for the first such function; a callable that has a global scope is a plain
+    # function; anything whose value can be serialised is a tracked variable (the rule records that serialisation); everything else has no rule.
+    R.uf("unwrapped_mf", [TObj()], TObj())
+    R.uf("callable_obj", [TObj()], TBool)
+    R.uf("serialize", [TObj()], TObj())
+    R.uf("fn_rule", [TObj(), TObj(), TStr, TObj(), TBool], TBool)
+    R.uf("var_rule", [TObj(), TObj(), TStr, TObj(), TObj(), TBool], TBool)
+    R.attr("__wrapped__", TObj())
+    R.external("callable", returns=TBool, ensures=["result == callable_obj(arg0)"])
+
+    def unwrap_axioms(ex):
+        """unwrapped_mf(x): the first memento function along the __wrapped__ chain starting at x, or None when the chain ends without one (definition by cases)."""
+        u, has = R.ufs["unwrapped_mf"][0], R.ufs["has_attr"][0]
+        w = z3.Function("attr___wrapped__", ObjSort, ObjSort)
+        key = ex.box(VStr("__wrapped__"))
+        ismf = ex.class_pred("MementoFunctionType")
+        ex.add_universal([TObj()], lambda x: z3.If(ismf(x), u(x) == x, z3.If(has(x, key), u(x) == u(w(x)), u(x) == PyNone)), "unwrapped-memento-function")
+        ex.add_universal([TObj()], lambda x: z3.Implies(ismf(x), x != PyNone), "memento-functions-are-objects")
+        ex.assume(z3.And(z3.Not(has(PyNone, key)), z3.Not(ismf(PyNone)), u(PyNone) == PyNone))
+    R.path_init.append(unwrap_axioms)
+
+    def sp_umf(ex, n):
+        """umf(x) = unwrapped_mf(x), and x becomes an instantiation point of the defining axiom."""
+        x = ex.box(ex.ev(n.args[0]))
+        if not ex.bound_ids:
+            ex.touch(TObj(), x)
+        return VObj(R.ufs["unwrapped_mf"][0](x))
+    R.spec_builtins["umf"] = sp_umf
+    R.touch_attrs = set(getattr(R, "touch_attrs", set())) | {"__wrapped__"}
+
+    def nmf_ctor(ex, args, kwargs):
+        names = ["parent_symbol", "symbol", "resolver", "obj", "first_level"]
+        vals = dict(zip(names, args)); vals.update(kwargs)
+        o = ex.fresh_obj("NonMementoFunctionHashRule")
+        ex.assume(R.ufs["fn_rule"][0](o, ex.box(vals["parent_symbol"]), ex.to_term(vals["symbol"], TStr), ex.box(vals["obj"]), ex.to_term(vals["first_level"], TBool)))
+        return VObj(o, "NonMementoFunctionHashRule")
+
+    def gv_ctor(ex, args, kwargs):
+        names = ["parent_symbol", "symbol", "resolver", "ref", "last_value", "first_level"]
+        vals = dict(zip(names, args)); vals.update(kwargs)
+        o = ex.fresh_obj("GlobalVariableHashRule")
+        ex.assume(R.ufs["var_rule"][0](o, ex.box(vals["parent_symbol"]), ex.to_term(vals["symbol"], TStr), ex.box(vals["ref"]), ex.box(vals["last_value"]), ex.to_term(vals["first_level"], TBool)))
+        return VObj(o, "GlobalVariableHashRule")
+    R.constructors["NonMementoFunctionHashRule"] = nmf_ctor
+    R.constructors["GlobalVariableHashRule"] = gv_ctor
+    R.contract("code_hash:GlobalVariableHashRule._serialize_value", assumed=True, types={"var": TObj()}, returns=TObj(), ensures=["same(result, serialize(var))"],
+               notes="the JSON bytes of the value, or None for a value Memento cannot hash")
+    TR_TYPES = {"parent_symbol": TOpt(TStr), "symbol": TStr, "resolver": TObj(), "ref": TObj(), "first_level": TBool}
+    R.contract("code_hash:MementoFunctionHashRule.try_resolve", prop="C14", types=TR_TYPES, returns=TObj(),
+               requires=["forall(obj, lambda x: implies(has_attr(x, '__wrapped__'), x.__wrapped__ is not None))"],
+               ensures=["(result is None) == (umf(ref0) is None)",
+                        "implies(result is not None, mf_rule(result, parent_symbol, symbol, umf(ref0), first_level))"],
+               loops={1: ["same(umf(ref), umf(ref0))"]},
+               labels={"entry_snapshot": {"ref0": "ref"}})
+    R.contract("code_hash:NonMementoFunctionHashRule.try_resolve", prop="C14", types=TR_TYPES, returns=TObj(),
+               ensures=["(result is None) == (not (callable_obj(ref) and has_attr(ref, '__globals__')))",
+                        "implies(result is not None, fn_rule(result, parent_symbol, symbol, ref, first_level))"])
+    R.contract("code_hash:GlobalVariableHashRule.try_resolve", prop="C14", types=TR_TYPES, returns=TObj(),
+               ensures=["(result is None) == (serialize(ref) is None)",
+                        "implies(result is not None, var_rule(result, parent_symbol, symbol, ref, serialize(ref), first_level))"])
